@@ -28,6 +28,29 @@ Lemma stream_type_facts :
   srv_ignored = [KMaxPushId; KCancelPush].
 Proof. vm_compute. repeat split; reflexivity. Qed.
 
+
+(* the remaining generated codes (their sites are not reachable over the simulated transport) *)
+Lemma remaining_codes :
+  code_pc_quic_unknown = E_CLOSED_CRITICAL /\ code_pnv_internal = 258 /\ code_cli_bidi = E_STREAM_CREATION.
+Proof. vm_compute. repeat split; reflexivity. Qed.
+
+(* the bodies of the functions the model mirrors by hand are the ones it was written against *)
+Lemma source_shapes :
+  shape_poll_accept_recv = 741454059817761024 /\
+  shape_inner_poll_control = 610605719855264594 /\
+  shape_process_goaway = 849770796200219870 /\
+  shape_poll_grease_stream = 402698484532604429 /\
+  shape_into_stream = 604109462653454260 /\
+  shape_poll_next_varint = 722813221928172113 /\
+  shape_poll_type = 607312072019453852 /\
+  shape_server_accept = 1127531358984613172 /\
+  shape_server_shutdown = 832965435934073669 /\
+  shape_server_poll_accept_request = 156635046848499470 /\
+  shape_server_poll_control = 1019207998921379069 /\
+  shape_server_poll_next_control = 786539864495094159 /\
+  shape_client_poll_close = 457050589089166871.
+Proof. vm_compute. repeat split; reflexivity. Qed.
+
 (* ---------- which parts of the connection state a function leaves alone ---------- *)
 (* the control automaton's part *)
 Definition ctl_part (c : conn) := (c_taken c, c_acted c, c_got c, c_recv_closing c).
@@ -124,7 +147,7 @@ Proof.
     destruct p as [[u|e|n]|].
     + (* resolved *)
       destruct (into_stream_kind a') as [k|e|n] eqn:Hk.
-      * destruct k.
+      * cbn [c_control c_enc c_dec log_seen] in H. destruct k.
         -- destruct (c_control c) eqn:Hc.
            ++ eapply (footprint_fail par_cause_code) with (c := c) in H; try reflexivity; [|left; auto].
               destruct H as (H1 & H2 & e & ->). split; [exact H1|split; [exact H2|discriminate]].
